@@ -82,12 +82,11 @@ Proof.
     destruct r; [congruence|]. cbn [length] in *. lia.
 Qed.
 
-(* division by a nonzero value succeeds (f64, Complex<f64>: always; exact types: unless the divisor is 0) *)
-Hypothesis div_total : forall x y : A, eqb y zero = false -> exists z, div x y = Ok z.
-
+(* division by the divisor's leading coefficient returns (f64, Complex<f64>: every division returns;
+   exact types: unless that coefficient is 0) *)
 Variable v : list A.
 Hypothesis v_nonempty : v <> [].
-Hypothesis v_lead : eqb (last v zero) zero = false.
+Hypothesis div_lead : forall x : A, exists z, div x (last v zero) = Ok z.
 
 Lemma polydiv_body_ok (q r : list A) : r <> [] -> length v <= length r ->
   exists q' r', polydiv_body q r v = Ok (q', r') /\ (length r' < length r \/ is_zero r' = true).
@@ -98,7 +97,7 @@ Proof.
   rewrite (rd_ok r (length r - 1) zero) by lia. cbn [bind].
   rewrite (rd_ok v (length v - 1) zero) by lia. cbn [bind].
   rewrite (nth_last_idx v).
-  destruct (div_total (nth (length r - 1) r zero) (last v zero) v_lead) as (c & Ec). rewrite Ec. cbn [bind].
+  destruct (div_lead (nth (length r - 1) r zero)) as (c & Ec). rewrite Ec. cbn [bind].
   set (t := repeat zero (length r - 1 - (length v - 1)) ++ [c]).
   assert (Lt : length t = length r - length v + 1).
   { unfold t. rewrite app_length, repeat_length. cbn [length]. lia. }
@@ -171,15 +170,21 @@ End DivAny.
 Section DivAnyTop.
 Context {A : Arith}.
 
+(* general form: all that is asked of the arithmetic is 0 == 0 and that dividing by lead(v) returns *)
+Lemma polydiv_total_gen (eqb00 : eqb (@zero A) zero = true) (u v : list A) :
+  v <> [] -> is_zero v = false -> (forall x : A, exists z, div x (last v zero) = Ok z) -> length u <= POLYDIV_MAX ->
+  exists q r, polydiv u v = Ok (inl (q, r)) /\ (is_zero r = true \/ length r < length v).
+Proof.
+  intros Nv Zv Dv Lu. unfold polydiv.
+  replace (length v =? 0) with false by (symmetry; apply Nat.eqb_neq; destruct v; [congruence|discriminate]).
+  rewrite Zv. apply (polydiv_loop_total eqb00 v Nv Dv); lia.
+Qed.
+
 Theorem polydiv_total (eqb00 : eqb (@zero A) zero = true)
   (div_total : forall x y : A, eqb y zero = false -> exists z, div x y = Ok z) (u v : list A) :
   v <> [] -> is_zero v = false -> eqb (last v zero) zero = false -> length u <= POLYDIV_MAX ->
   exists q r, polydiv u v = Ok (inl (q, r)) /\ (is_zero r = true \/ length r < length v).
-Proof.
-  intros Nv Zv Lv Lu. unfold polydiv.
-  replace (length v =? 0) with false by (symmetry; apply Nat.eqb_neq; destruct v; [congruence|discriminate]).
-  rewrite Zv. apply (polydiv_loop_total eqb00 div_total v Nv Lv); lia.
-Qed.
+Proof. intros Nv Zv Lv Lu. apply polydiv_total_gen; auto. Qed.
 
 (* ... and it gets there within length u passes of the loop body *)
 Lemma polydiv_passes (eqb00 : eqb (@zero A) zero = true)
@@ -189,7 +194,23 @@ Lemma polydiv_passes (eqb00 : eqb (@zero A) zero = true)
 Proof.
   intros Nv Zv Lv Lu fuel Hf. unfold polydiv.
   replace (length v =? 0) with false by (symmetry; apply Nat.eqb_neq; destruct v; [congruence|discriminate]).
-  rewrite Zv. apply (polydiv_loop_fuel eqb00 div_total v Nv Lv); lia.
+  rewrite Zv. apply (polydiv_loop_fuel eqb00 v Nv (fun x => div_total x _ Lv)); lia.
+Qed.
+
+(* arithmetics whose division always returns (IEEE: x/0 is inf or NaN, never a panic): EVERY input is classified --
+   the error value exactly for the empty / all-zero divisor, otherwise Ok with r zero or shorter than v; never a
+   panic, never the iteration cap, whatever the coefficients are (NaN, infinities, zero leading coefficient) *)
+Lemma polydiv_outcomes (eqb00 : eqb (@zero A) zero = true)
+  (div_always : forall x y : A, exists z, div x y = Ok z) (u v : list A) : length u <= POLYDIV_MAX ->
+  ((v = [] \/ is_zero v = true) /\ polydiv u v = Ok (inr EZeroDiv)) \/
+  (v <> [] /\ is_zero v = false /\
+   exists q r, polydiv u v = Ok (inl (q, r)) /\ (is_zero r = true \/ length r < length v)).
+Proof.
+  intros Lu. destruct v as [|a t] eqn:Ev; [left; split; [auto|reflexivity]|]. rewrite <- Ev.
+  assert (Nv : v <> []) by (rewrite Ev; discriminate).
+  destruct (is_zero v) eqn:Zv.
+  - left. split; [auto|]. unfold polydiv. rewrite Zv. now destruct (length v =? 0).
+  - right. split; [exact Nv|]. split; [reflexivity|]. apply polydiv_total_gen; auto.
 Qed.
 
 Lemma polydiv_zero_divisor_lemma (u v : list A) : v = [] \/ is_zero v = true -> polydiv u v = Ok (inr EZeroDiv).
